@@ -393,6 +393,9 @@ class ConfigParser(object):
       cp.read_file(fp)
     except (configparser.DuplicateOptionError, configparser.DuplicateSectionError) as e:
       raise ConfigParserDuplicateEntryException(e.message)
+    except configparser.Error as e:
+      # e.g. text before the first section header, a section header that is not closed, a line without ':' or '='
+      raise ConfigParserException("Input is not a valid configuration file: {}".format(e.message))
 
     # Process overrides
     for override in overrides:
